@@ -21,7 +21,7 @@ def run(tier, seed, replay=None):
             cases = [c.get("case", c) for c in cases]
         else:
             cases = [drv.gen(rng, nmax=4 if i % 3 == 0 else 10) for i in range(250 if tier == "quick" else 4000)]
-        res = run_tasks("backends", "run_backends", cases, timeout=60, pythonpath_first=ov)
+        res = run_tasks("backends", "run_backends", cases, timeout=120, pythonpath_first=ov)
     finally:
         rustbuild.cleanup(ov)
     same, fam = [], {"paths": [], "mst": [], "scc": [], "gp": []}
